@@ -42,6 +42,10 @@ def oracle(ctx: core.Ctx, recs: list[dict[str, Any]], envs: list[dict[str, Any]]
         a = case["a"]
         ta = E.truth_of(a, envs)
         tb = E.truth_of(case["b"], envs) if k == "binop" else None
+        if E.TIMEOUT in (ta, tb):
+            ctx.count("oracle:operand-timeout")
+            ctx.timeouts += 1
+            continue
         if ta is None or (k == "binop" and tb is None):
             ctx.case("x:" + str(case), nontrivial=False)
             continue
@@ -83,7 +87,10 @@ def oracle(ctx: core.Ctx, recs: list[dict[str, Any]], envs: list[dict[str, Any]]
             # printable and parsed back
             if not (r.is_any() or r.is_empty()):
                 t2 = E.truth_of(rec["text"], envs)
-                if rec["text"].startswith("!") or t2 is None:
+                if t2 == E.TIMEOUT:
+                    ctx.count("oracle:reparse-timeout")
+                    ctx.timeouts += 1
+                elif rec["text"].startswith("!") or t2 is None:
                     ctx.violate(f"unprintable:{case.get('op')}:{a}|{case.get('b', '')}",
                                 f"result of {case.get('op')}({a!r}, {case.get('b')!r}) prints as {rec['text']!r}, which does not parse back", wit)
                 elif [c for c in MC.split_bits(t2)] != xr:
